@@ -12,6 +12,24 @@ NOT_BUILT = "check not built yet in this round (claimed by DESIGN.md; " \
             "listed here until its static check exists and is exact)"
 
 CHECKS = {
+    "C03": {
+        "text": "NARROW: decides that the geometric component of the "
+                "bin-count lower bound is an exact integer ceiling (one of "
+                "the enumerated idioms) of the total item area over the bin "
+                "area, that the total area sums width*height*multiplicity "
+                "over all rows unconditionally, that the stored bound is "
+                "max(damv, geo), that the consumers read that attribute and "
+                "that the reported geometric bound is the same ceiling.",
+        "design_ref": "DESIGN.md section 4, C03",
+        "note": "Does NOT decide the validity of the "
+                "Dell'Amico-Martello-Vigo bound (a theorem about the item "
+                "sets, not a shape of the code), hence not the headline "
+                "'never exceeds an achievable packing'. Exactness of the "
+                "geometric part is a necessary condition for both "
+                "directions of the property.",
+        "technique": "symbolic normal form matched against enumerated "
+                     "exact-ceiling idioms + structural dataflow",
+    },
     "C08": {
         "text": "PARTIAL: the per-day transition of the travel-length "
                 "kernel is executed symbolically and compared case by case "
